@@ -63,9 +63,6 @@ End SimpleWire.
 
 Definition xDrum (s : sx) : list Z := xZs s.
 
-Definition empty_st {E} (p : E) : st E :=
-  mkst [] 0 0 DEFAULT_STEPS_PER_BAR DEFAULT_STEPS_PER_QUARTER p.
-
 (* ---- LeadSheet ---- *)
 Definition xLsOp (s : sx) : LeadSheet.op :=
   match xZ (a_ 0 s) with
